@@ -1515,25 +1515,66 @@ func recordCrashHistory(scratch string, h CrashHistory) (*crashfs.Log, error) {
 	})
 }
 
-// prefixDigest pins the part of a log a descriptor depends on: every event up to the cut (and the torn write) with
-// paths, offsets and payload bytes. Two recordings with equal digests give byte-identical images.
-func prefixDigest(l *crashfs.Log, d crashfs.Descriptor) string {
-	n := d.Cut
-	if d.TornLen >= 0 && d.TornEvent >= n {
-		n = d.TornEvent + 1
-	}
-	if n > len(l.Events) {
-		return "log-too-short"
-	}
+// contentKey identifies the directory content of an image (paths, sizes, bytes, hard-link structure).
+func contentKey(im *crashfs.Image) string {
 	h := sha256.New()
-	for i := 0; i < n; i++ {
-		e := &l.Events[i]
-		fmt.Fprintf(h, "%s|%s|%s|%d|%d|%d|%x|", e.Op, e.Path, e.Path2, e.Ino, e.Off, e.Size, sha256.Sum256(e.Data))
-		if e.Marker != nil {
-			fmt.Fprintf(h, "%s|%d|%s|", e.Marker.Kind, e.Marker.K, e.Marker.Payload)
+	first := map[int]int{}
+	for i, f := range im.Files {
+		fmt.Fprintf(h, "%s|%v|", f.Path, f.Dir)
+		if f.Dir {
+			continue
+		}
+		if j, ok := first[f.Ino]; ok {
+			fmt.Fprintf(h, "link%d|", j)
+			continue
+		}
+		first[f.Ino] = i
+		d := f.Data
+		if int64(len(d)) > f.Size {
+			d = d[:f.Size]
+		}
+		for len(d) > 0 && d[len(d)-1] == 0 {
+			d = d[:len(d)-1]
+		}
+		fmt.Fprintf(h, "%d|%d|", f.Size, len(d))
+		h.Write(d)
+	}
+	return hex.EncodeToString(h.Sum(nil)[:12])
+}
+
+func ctxKey(cx crashCtx) string { return fmt.Sprintf("%d/%s/%d", cx.NAcked, cx.Infl, cx.InflI) }
+
+// findImage locates the image of a recorded case in a (possibly different) recording of the same history: by its
+// descriptor if that still names the same content and context, else by searching all images of the log (the series
+// file writes its partitions from concurrent goroutines, so the event order of two recordings may differ).
+func findImage(l *crashfs.Log, cs *CrashCase) (*crashfs.Image, crashCtx, bool) {
+	d := getDomain(cs.History.Cfg.Domain)
+	if im, err := l.Build(cs.Desc, crashImgOpts); err == nil {
+		if cx, err := contextOf(d, im); err == nil && contentKey(im) == cs.Content && ctxKey(cx) == cs.Ctx {
+			return im, cx, true
 		}
 	}
-	return hex.EncodeToString(h.Sum(nil)[:8])
+	if cs.History.Manual {
+		for _, ds := range manualDescriptors(l, cs.History.From, cs.History.Upto) {
+			im, err := l.Build(ds, crashImgOpts)
+			if err != nil || contentKey(im) != cs.Content {
+				continue
+			}
+			if cx, err := contextOf(d, im); err == nil && ctxKey(cx) == cs.Ctx {
+				return im, cx, true
+			}
+		}
+		return nil, crashCtx{}, false
+	}
+	for im := range l.Images(crashImgOpts, nil) {
+		if contentKey(im) != cs.Content {
+			continue
+		}
+		if cx, err := contextOf(d, im); err == nil && ctxKey(cx) == cs.Ctx {
+			return im, cx, true
+		}
+	}
+	return nil, crashCtx{}, false
 }
 
 var (
@@ -1558,24 +1599,28 @@ func cacheCrashLog(h CrashHistory, l *crashfs.Log) {
 	crashLogMu.Unlock()
 }
 
-func findCrashLog(scratch string, h CrashHistory, d crashfs.Descriptor, digest string) (*crashfs.Log, string) {
+// findCrashImage returns the image of the case from a cached or fresh recording of its history.
+func findCrashImage(scratch string, cs *CrashCase) (*crashfs.Image, crashCtx, string) {
+	h := cs.History
 	crashLogMu.Lock()
 	l := crashLogCache[crashHistoryKey(h)]
 	crashLogMu.Unlock()
-	if l != nil && (digest == "" || prefixDigest(l, d) == digest) {
-		return l, ""
+	if l != nil {
+		if im, cx, ok := findImage(l, cs); ok {
+			return im, cx, ""
+		}
 	}
-	for try := 0; try < 4; try++ {
+	for try := 0; try < 6; try++ {
 		l, err := recordCrashHistory(scratch, h)
 		if err != nil {
-			return nil, "recording failed: " + err.Error()
+			return nil, crashCtx{}, "recording failed: " + err.Error()
 		}
-		cacheCrashLog(h, l)
-		if digest == "" || prefixDigest(l, d) == digest {
-			return l, ""
+		if im, cx, ok := findImage(l, cs); ok {
+			cacheCrashLog(h, l)
+			return im, cx, ""
 		}
 	}
-	return nil, "could not re-record a log with the same event prefix (the history is not deterministic enough for this descriptor)"
+	return nil, crashCtx{}, "could not re-record a log that contains the image of this case (the history is not deterministic enough)"
 }
 
 // isolatedTimeout bounds the recovery of ONE image in its own subprocess (normally milliseconds plus process start).
@@ -1727,7 +1772,8 @@ func recoverAll(scratch string, cfg Cfg, second bool, items []crashItem, expired
 type CrashCase struct {
 	History CrashHistory       `json:"history"`
 	Desc    crashfs.Descriptor `json:"image"`
-	Digest  string             `json:"log_prefix_digest"`
+	Content string             `json:"image_content"` // contentKey of the image: a re-recording is searched for it
+	Ctx     string             `json:"ack_context"`   // acknowledged ops / op in flight at the cut
 	Second  bool               `json:"second_restart"`
 	Cut     string             `json:"cut_description"`
 }
@@ -1757,9 +1803,17 @@ func cutClass(im *crashfs.Image) string {
 	return strings.TrimSuffix(im.NextOp+":"+fileClass(im.NextPath), ":")
 }
 
-// crashSig: clause, stage of the recovery checker, kind of cut, kind of the op in flight, what was happening at the cut.
+// crashSig: clause, stage of the recovery checker, kind of the op in flight, kind of file the cut lies in (for U
+// images: the file whose unsynced data was dropped or torn, marked "unsynced:").
 func crashSig(clause, stage string, im *crashfs.Image, cx crashCtx) string {
-	return vlib.JoinSig("crash", clause, stage, "cut="+im.Desc.Kind, "inflight="+cx.Infl, "at="+cutClass(im))
+	at := fileClass(im.NextPath)
+	if at == "" {
+		at = "between-ops"
+	}
+	if im.Desc.Kind == crashfs.KindU {
+		at = "unsynced:" + at
+	}
+	return vlib.JoinSig("crash", clause, stage, "inflight="+cx.Infl, "at="+at)
 }
 
 // manualTornLens: torn lengths of the manual enumeration: every length up to 4096 bytes, else the first and last 64
@@ -1896,7 +1950,7 @@ func crashHistoryRun(c *vlib.Ctx, scratch string, h CrashHistory) (stop bool) {
 			if clause != "" {
 				c.Violation(crashSig(clause, stage, im, cx),
 					fmt.Sprintf("crash history %s, image %s; acknowledged: live=%v deleted=%v, in flight: %s — recovery checker stage %s: %s", h, cutDesc, cx.M.Live, cx.M.Dead, inflStr(cx), stage, detail),
-					Case{Crash: &CrashCase{History: h, Desc: im.Desc, Digest: prefixDigest(l, im.Desc), Second: second, Cut: cutDesc}})
+					Case{Crash: &CrashCase{History: h, Desc: im.Desc, Content: contentKey(im), Ctx: ctxKey(cx), Second: second, Cut: cutDesc}})
 			} else if !sampled && h.From <= 0 && c.WantSample() && im.Desc.Kind == crashfs.KindT && cx.Infl == OpCreate && len(cx.M.Live) > 0 {
 				sampled = true
 				c.Sample(map[string]any{"family": "crash", "history": h.String(), "image": im.Desc.String(), "at": im.NextOp + " " + im.NextPath,
@@ -2032,25 +2086,16 @@ func replayCrash(cs *CrashCase) (bool, string) {
 	scratch := vlib.Scratch("c13cr-")
 	defer os.RemoveAll(scratch)
 	h := cs.History
-	d := getDomain(h.Cfg.Domain)
-	l, msg := findCrashLog(scratch, h, cs.Desc, cs.Digest)
-	if l == nil {
+	im, cx, msg := findCrashImage(scratch, cs)
+	if im == nil {
 		return false, msg
-	}
-	im, err := l.Build(cs.Desc, crashImgOpts)
-	if err != nil {
-		return false, "cannot rebuild the image: " + err.Error()
-	}
-	cx, err := contextOf(d, im)
-	if err != nil {
-		return false, err.Error()
 	}
 	dir, _ := os.MkdirTemp(scratch, "img-")
 	res, out, err := runCrashRecovery(dir, h.Cfg, cs.Second, []crashItem{{im, cx}}, isolatedTimeout)
 	if err != nil {
 		return false, "recovery could not be run: " + err.Error()
 	}
-	obs := fmt.Sprintf("crash history %s image %v (at the cut: %s %s; acknowledged: live=%v deleted=%v, in flight: %s): ", h, cs.Desc, im.NextOp, im.NextPath, cx.M.Live, cx.M.Dead, inflStr(cx))
+	obs := fmt.Sprintf("crash history %s image %s (content %s; acknowledged: live=%v deleted=%v, in flight: %s): ", h, cs.Cut, cs.Content, cx.M.Live, cx.M.Dead, inflStr(cx))
 	o := res["0"]
 	if o == nil {
 		o = &CrashObs{ID: "0", Died: deathClass(out)}
